@@ -296,6 +296,7 @@ func init() {
 			vs.Point("writers-done")
 			x.Data["wrote"] = got
 			cl.Kill() // EOF on the pipes: the last unterminated line is delivered
+			x.Data["exitedAfterKill"] = cl.Exited()
 			fmu.Lock()
 			x.Data["fwd"] = append([]byte(nil), fwd.Bytes()...)
 			fmu.Unlock()
@@ -316,6 +317,9 @@ func init() {
 				if !got[w] {
 					x.Fail("L", "the plugin's write to %s never completed: the host stopped consuming it [%s]", w, desc)
 				}
+			}
+			if x.Data["exitedAfterKill"] != true {
+				x.Fail("L", "Client.Exited() is false after Kill returned: the goroutine that waits for the process is stuck behind the output readers [%s]", desc)
 			}
 			toks := x.Data["toks"].([]string)
 			if n := len(toks); n > 0 && p["nl"] != "1" {
